@@ -420,7 +420,10 @@ def mapLoop (mk : String → NR) (rec : RTy → Flags → Ty → Ty → St → N
                 (mapLoop mk rec ign k v l0 l1 ek ev wk wv extra keyFast valFast n s6).map fun es =>
                   .record [(l0, kv), (l1, vv)] :: es
 
-/-- `deserialize_map`: `guard`, `unroll`, `add_cost(1)` by the caller -/
+/-- `deserialize_map`: `guard`, `unroll`, `add_cost(1)` by the caller.  `len.checked_mul(7)` failing ("Map length
+overflow") is reported as `err limit`, a limit of the host like the depth budget: the untyped decoder has no such
+check, so the agreement theorem of `Proofs/NativeSim` excepts this outcome together with depth starvation (the driver
+prints every error kind as `err`) -/
 def nMapCase (mk : String → NR) (env : Env) (fuel : Nat) (rec : RTy → Flags → Ty → Ty → St → NR) (ign : Ty → St → R Val) (k v : RTy)
     (ww ee : Ty) (s1 : St) : NR :=
   match env.trace fuel ee, env.trace fuel ww with
@@ -445,7 +448,7 @@ def nMapCase (mk : String → NR) (env : Env) (fuel : Nat) (rec : RTy → Flags 
               let keyFast : Bool := decide (ek = .prim .text) && decide (wk = .prim .text)
               let valFast := bigOf ev wv
               let anyFast := keyFast || valFast.isSome
-              (if anyFast then (if n * 7 > usizeMax then R.err .other else addCost s2 (n * 7)) else R.ok () s2).bind fun _ s3 =>
+              (if anyFast then (if n * 7 > usizeMax then R.err .limit else addCost s2 (n * 7)) else R.ok () s2).bind fun _ s3 =>
                 (mapLoop mk rec ign k v l0 l1 ek ev wk wv extra keyFast valFast n s3).map fun es => (.vec es, Flags.clear)
           else emptyMap s1
         | _ => emptyMap s1)
